@@ -455,7 +455,14 @@ class C08(Check):
         reconnects = [c for c in net.connect_log[1:]]
         all_accepted = all(m == "accept" for _, _, m in reconnects)
         detectable = all(c.kind in ("EOF", "RST") for c in fired) and len(fired) >= 1
-        if op == "request" and detectable and plan["max_retry"] >= len(fired) and all_accepted:
+        # ... or the peer was back before the client's own back-off before a reconnect (UDSClient.retry_wait, read off the
+        # client object) had elapsed: a client that keeps to that back-off finds it listening
+        backoff = float(getattr(holder.get("client"), "retry_wait", 0.0) or 0.0)
+        r_ = plan.get("restart")
+        back_in_time = r_ is not None and len(fired) == 1 and 0.0 <= r_ < backoff - 0.02
+        if back_in_time and not all_accepted:
+            bump(res["probes"], "peer_back_before_the_clients_backoff_elapsed")
+        if op == "request" and detectable and plan["max_retry"] >= len(fired) and (all_accepted or back_in_time):
             s = next((s for s in steps if s["name"] == "request"), None)
             if s is not None and (s["out"] != "ok" or s["val"] != REPLY):
                 phase = "before-cut" if cut_time is None else ("request-in-flight" if s["t0"] <= cut_time <= s["t1"] else "cut-before-request")
